@@ -814,3 +814,65 @@ def o_c03(run):
             f['detail'] = 'F3-shape (AddSnapshot answered 200 between the client-creation transaction of a concurrent AddVersion and the first accepted version): ' + f['detail']
         out.append(f)
     return out
+
+# --------------------------------------------------------------------------------------------- C04 (crash images)
+
+EMPTY_CLIENT = 'latest=none snap=- data=none'
+CREATED_CLIENT = 'latest=00000000-0000-0000-0000-000000000000 snap=- data=none'
+
+def o_c04(run):
+    out = []
+    ref = {}          # request index -> {client: dump}
+    for g, pd, praw, st in iterate(run):
+        if g.meta.get('op') == 'refdump':
+            ref[int(g.meta['i'])] = dict(g.dumps)
+    clients = run.clients
+    init = {c: EMPTY_CLIENT for c in clients}
+    def norm(d):
+        return EMPTY_CLIENT if d == CREATED_CLIENT else d
+    last_process = None
+    stats = collections.Counter()
+    for r in run.recs:
+        if r.ws[0] != 'crash':
+            continue
+        kv = dict(w.split('=', 1) for w in r.ws[3:] if '=' in w)
+        acked, infl = int(kv.get('acked', -1)), int(kv.get('inflight', -1))
+        obs = r.impl
+        if obs == 'same':
+            obs = last_process
+        elif r.ws[2] == 'process':
+            last_process = obs
+        if obs is None:
+            continue
+        stats[r.ws[2].split(':')[0]] += 1
+        parts = obs.split(' | ')
+        if not parts[0].startswith('integrity=ok'):
+            out.append(fail('C04: after restart the database opens cleanly', r, parts[0][:200]))
+            continue
+        got = {}
+        for p in parts[1:]:
+            c, d = p.split(' ', 1)
+            got[c] = d
+        allowed = [ref.get(acked, init) if acked >= 0 else init]
+        if infl >= 0 and infl in ref:
+            allowed.append(ref[infl])
+        ok = False
+        used_empty = False
+        for a in allowed:
+            if all(got.get(c) == a.get(c, EMPTY_CLIENT) for c in clients):
+                ok = True
+                break
+            if all(norm(got.get(c)) == norm(a.get(c, EMPTY_CLIENT)) for c in clients):
+                ok = True
+                used_empty = True
+                break
+        if used_empty:
+            stats['empty_client_identified'] += 1
+        if not ok:
+            which = [c for c in clients if all(norm(got.get(c)) != norm(a.get(c, EMPTY_CLIENT)) for a in allowed)]
+            c = which[0] if which else clients[0]
+            lost = acked >= 0 and norm(got.get(c)) != norm(allowed[0].get(c, EMPTY_CLIENT))
+            out.append(fail('C04: every acknowledged AddVersion / AddSnapshot is still present and each request in flight is either completely applied or completely absent', r,
+                            f'{r.ws[2]} image after fs-op {r.ws[1]}: acked={acked} inflight={infl}; client {c} recovered as {str(got.get(c))[:200]} ; allowed: ' + ' OR '.join(str(a.get(c))[:160] for a in allowed)))
+    run.c04_stats = stats
+    return out
